@@ -134,7 +134,12 @@ func VerifH_C07_filterOps() {
 			}
 		case 1:
 			if len(model) < 2 {
-				// rolling back the genesis filter header is not something a caller does
+				// past genesis: refused, and the store answers as before
+				vpReach("f-rollback-past-genesis")
+				g := blocks[0].BlockHash()
+				_, err := fs.RollbackLastBlock(&g)
+				vpAssert(err != nil, "f-rollback-past-genesis-refused")
+				vpCheckFilterStore(fs, model, blocks)
 				continue
 			}
 			vpReach("f-rollback")
